@@ -169,7 +169,7 @@ package jhttp
 // failure of the request proper is 500.
 //@ func (Bridge).ServeHTTP
 //@   requires w != nil && req != nil && req.URL != nil && req.Header != nil && bridgeOK(b) && (b.getter != nil ==> b.getter.local.Client != nil)
-//@   modifies whStatus(w), whCalls(w), wbCalls(w), wbJSON(w), wjObj(w), clientCalls, clientBatches, monitor(Client, b.local.Client), held(fieldaddr(b.local.Client, mu)), chSends, slotId, jrpc2.Response.err, jrpc2.Response.result, jrpc2.Response.id, fired
+//@   modifies whStatus(w), whCalls(w), wbCalls(w), wbJSON(w), wjObj(w), clientCalls, clientBatches, monitor(Client, b.local.Client), held(fieldaddr(b.local.Client, mu)), chSends, slotId, jrpc2.Response.err, jrpc2.Response.result, jrpc2.Response.id, fired, jsonDecodes, jsonSource
 //@   ensures[C18:method-gate] !called("call.ServeHTTP#1") && b.parseReq == nil && req.Method != "POST" ==> whStatus(w) == 405 && clientBatches == old(clientBatches) && clientCalls == old(clientCalls)
 //@   ensures[C18:type-gate] called("call.ParseMediaType#1") && callres("call.ParseMediaType#1", 0, "string") != "application/json" ==> whStatus(w) == 415 && clientBatches == old(clientBatches)
 //@   ensures[C18:charset-gate] called("call.ParseMediaType#1") && in(callres("call.ParseMediaType#1", 1, "map[string]string"), "charset") && lookup(callres("call.ParseMediaType#1", 1, "map[string]string"), "charset") != "utf-8" && lookup(callres("call.ParseMediaType#1", 1, "map[string]string"), "charset") != "utf8" ==> whStatus(w) == 415 && clientBatches == old(clientBatches)
@@ -184,7 +184,7 @@ package jhttp
 // objects at all is 204 with no body, otherwise the objects are encoded.
 //@ func (Bridge).serveInternal
 //@   requires w != nil && req != nil && bridgeOK(b)
-//@   modifies whStatus(w), whCalls(w), wbCalls(w), wbJSON(w), wjObj(w), clientBatches, monitor(Client, b.local.Client), held(fieldaddr(b.local.Client, mu)), chSends, slotId, jrpc2.Response.err, jrpc2.Response.result, jrpc2.Response.id, fired
+//@   modifies whStatus(w), whCalls(w), wbCalls(w), wbJSON(w), wjObj(w), clientBatches, monitor(Client, b.local.Client), held(fieldaddr(b.local.Client, mu)), chSends, slotId, jrpc2.Response.err, jrpc2.Response.result, jrpc2.Response.id, fired, jsonDecodes, jsonSource
 //@   ensures[C18:parse-failure-runs-nothing] callres("call.parseHTTPRequest#1", 1, "error") != nil ==> result != nil && clientBatches == old(clientBatches) && whCalls(w) == old(whCalls(w))
 //@   ensures[C18:one-batch-iff-valid-members] clientBatches == old(clientBatches) + (called("call.Batch#1") ? 1 : 0)
 //@   ensures[C18:no-content] result == nil && !called("call.encodeResponses#1") ==> whStatus(w) == 204 && wbCalls(w) == old(wbCalls(w)) && whCalls(w) == old(whCalls(w)) + 1
@@ -199,6 +199,7 @@ package jhttp
 
 //@ func (Bridge).parseHTTPRequest
 //@   requires req != nil
+//@   modifies jsonDecodes, jsonSource
 //@   ensures result1 != nil ==> result0 == nil
 //@   ensures forall(i int, 0 <= i && i < len(result0) ==> result0[i] != nil)
 
